@@ -353,6 +353,9 @@ class _LocalDatePatternParser(_IPatternParser[LocalDate]):
             # Use the year from the template value, possibly checking the era.
             if not used_fields.has_any(_PatternFields.YEAR_OF_ERA):
                 self._year = self._template_value.year
+                if self._year > self._calendar.max_year or self._year < self._calendar.min_year:
+                    # The calendar came from the text (calendar field) and does not cover the template value's year.
+                    return ParseResult._field_value_out_of_range_post_parse(text, self._year, "u", eventual_result_type)
                 if used_fields.has_any(_PatternFields.ERA) and self.__era != self._calendar._get_era(self._year):
                     return ParseResult._inconsistent_values(text, "g", "u", eventual_result_type)
                 return None
